@@ -372,6 +372,18 @@ impl<'a> StringParser<'a> {
                 }
                 '"' | '\'' => {
                     expression.push(ch);
+                    // a triple-quoted string ends at three quote characters in a row
+                    let triple = {
+                        let mut ahead = self.chars.clone();
+                        ahead.next() == Some(ch) && ahead.next() == Some(ch)
+                    };
+                    if triple {
+                        self.next_char();
+                        self.next_char();
+                        expression.push(ch);
+                        expression.push(ch);
+                    }
+                    let mut run = 0;
                     loop {
                         let Some(c) = self.next_char() else {
                             return Err(
@@ -380,7 +392,12 @@ impl<'a> StringParser<'a> {
                         };
                         expression.push(c);
                         if c == ch {
-                            break;
+                            run += 1;
+                            if !triple || run == 3 {
+                                break;
+                            }
+                        } else {
+                            run = 0;
                         }
                     }
                 }
